@@ -53,6 +53,40 @@ class Injector:
             self.site = (os.path.basename(code.co_filename), code.co_name, line)
             raise self.exc(f"injected at crash point {k}")
 
+    def run_opcodes(self, fn, target=-1, exc=None):
+        """Like run(), but crash points are INSTRUCTIONS of pulsarbat code (thorough tier)."""
+        from . import linemon
+        im = linemon.get_instruction_monitor()
+        self.count = 0
+        self.target = target
+        self.exc = exc
+        self.site = None
+        self.fired = False
+        self.thread = threading.current_thread()
+
+        def cb(code, offset):
+            if threading.current_thread() is not self.thread:
+                return
+            k = self.count
+            self.count = k + 1
+            if k == self.target:
+                self.fired = True
+                self.site = (os.path.basename(code.co_filename), code.co_name, f"+{offset}")
+                raise self.exc(f"injected at instruction-level crash point {k}")
+
+        im.callback = cb
+        im.enable()
+        try:
+            try:
+                return "ok", fn()
+            except BaseException as e:  # noqa
+                if isinstance(e, KeyboardInterrupt) and not isinstance(e, SimInterrupt):
+                    raise
+                return "raise", e
+        finally:
+            im.callback = None
+            im.disable()
+
     def run(self, fn, target=-1, exc=None):
         """Run fn() with the k-th crash point raising `exc` (target<0: only count).
         Returns (outcome, value) with outcome in {'ok','raise'}."""
